@@ -1224,10 +1224,17 @@ func (c *Canonicalizer) NormalizeOperand(v ssa.Value, context ssa.Instruction) s
 		if name, exists := c.registerMap[v]; exists {
 			return name
 		}
-		return fmt.Sprintf("<func_ref:%s:%s>", operand.Name(), sanitizeType(operand.Signature))
+		return fmt.Sprintf("<func_ref:%s:%s>", funcRefName(operand), sanitizeType(operand.Signature))
 	default:
 		return c.normalizeValue(v)
 	}
+}
+
+// funcRefName identifies a referenced function unambiguously. The bare name is not enough:
+// a.Get and b.Get, or (*T).Close and (*U).Close, have equal names and signatures but are
+// different callees, so package path and receiver are part of the reference.
+func funcRefName(fn *ssa.Function) string {
+	return fn.RelString(nil)
 }
 
 func packageQualifier(p *types.Package) string {
